@@ -513,6 +513,14 @@ def check_transform(fns, what, bad):
                 bad('C16-postorder', f'{what}: the callback is applied to a node before its children are '
                                      f'transformed (the parent must be rebuilt from transformed children first)')
                 continue
+            if not any(isinstance(x, tuple) and x[:2] == ('CALL', CB) for x in P.subterms(ret)):
+                # a parsed object leaves the rebuild without having been handed to the callbacks
+                cond = ' and '.join(('' if t[2] else 'not ') + P.tfmt(t[1]) for t in tests
+                                    if not isinstance_types(t[1]))
+                bad('C16-once', f'{what}: a parsed object is returned as {P.tfmt(ret)} without being passed to the '
+                                f'callbacks{" when " + cond if cond else ""}: callbacks do not run on every '
+                                f'object occurrence')
+                continue
             if len(loops) != 1:
                 raise AnalysisError(f'{what}: _transform object branch has {len(loops)} loops')
             lp = loops[0]
